@@ -27,7 +27,10 @@ def expected_monitor(model, ev):
 
 
 def expected_scheme(model, pt, dt, scheme, delta=1e-8, stiff=None, counters=None, missing=None):
-    sr = schemeref.SchemeRef(model, pt, dt, delta=delta, missing=missing)
+    try:
+        sr = schemeref.SchemeRef(model, pt, dt, delta=delta, missing=missing)
+    except refsem.RefError:  # e.g. dt = 1e-300 is outside the range the reference handles
+        return {}
     out = {}
     for s in model["states"]:
         kind, r, side = sr.status(scheme, s["name"], stiff)
